@@ -131,6 +131,8 @@ static inline struct ubuf *ubuf_block_get(struct ubuf *ubuf, int *offset_p,
 
     if (*offset_p < 0)
         *offset_p += block->total_size;
+    if (unlikely(*offset_p < 0))
+        return NULL;
     if (size_p != NULL && *size_p == -1)
         *size_p = block->total_size - *offset_p;
 
